@@ -19,6 +19,16 @@ Definition phys_set (m : message) (st : state) (i : nat) (xbits : Z) : state :=
   | None => st
   end.
 
+(** the generated physical getter <Signal>() on field [i]: desc.ToPhysical(float64(m.x)), where desc is the
+    descriptor of signal [i] OF THIS MESSAGE (the generated code reaches it as Messages().<Msg>.<Signal>;
+    that this wiring names signal [i]'s own descriptor is compared on the built packages by the
+    generated-code stage of C09) *)
+Definition phys_get (m : message) (st : state) (i : nat) : option f64 :=
+  match nth_error (msg_signals m) i with
+  | Some s => Some (getter_physical s (nth i st 0))
+  | None => None
+  end.
+
 (** operations including physical setters *)
 Inductive opx := Base (o : op) | OpSetPhys (i : nat) (xbits : Z).
 
@@ -73,6 +83,55 @@ Proof.
     unfold History.raw_lo, History.raw_hi. rewrite Esg. unfold to_prim.
     pose proof (pow2_mono (s_length s) b ltac:(lia)). pose proof (pow2_pos (s_length s) ltac:(lia)).
     rewrite Z.mod_small by lia. apply andb_true_iff. split; apply Z.leb_le; lia.
+Qed.
+
+(** physical accessors are local to their signal: Set<Signal>(x) changes field [i] only, to a function of
+    signal [i]'s own descriptor and [x]; <Signal>() afterwards is ToPhysical of exactly that raw value; the
+    raw and physical getters of every other signal are unchanged *)
+Lemma nth_set_nth_state_same i : forall v st, (i < length st)%nat -> nth i (set_nth_state i v st) 0 = v.
+Proof.
+  induction i as [|i IH]; intros v [|h t] H; cbn [length] in H; try lia; cbn [set_nth_state nth]; [reflexivity|].
+  apply IH. lia.
+Qed.
+Lemma nth_set_nth_state_other i : forall j v st, i <> j -> nth j (set_nth_state i v st) 0 = nth j st 0.
+Proof.
+  induction i as [|i IH]; intros [|j] v [|h t] H; cbn [set_nth_state nth]; try reflexivity; try congruence.
+  apply IH. congruence.
+Qed.
+
+Lemma phys_get_after_set m st i s x :
+  nth_error (msg_signals m) i = Some s -> (i < length st)%nat ->
+  nth i (phys_set m st i x) 0 = phys_set_value s x /\
+  phys_get m (phys_set m st i x) i = Some (getter_physical s (phys_set_value s x)).
+Proof.
+  intros E Hl. unfold phys_get, phys_set. rewrite E. rewrite nth_set_nth_state_same by exact Hl. split; reflexivity.
+Qed.
+
+Lemma phys_set_other m st i j x :
+  i <> j -> nth j (phys_set m st i x) 0 = nth j st 0 /\ phys_get m (phys_set m st i x) j = phys_get m st j.
+Proof.
+  intros Hij. unfold phys_get, phys_set. destruct (nth_error (msg_signals m) i); [|split; reflexivity].
+  rewrite nth_set_nth_state_other by exact Hij. split; reflexivity.
+Qed.
+
+(** the generated getter obeys the clamp clause of C09 in every state whose field is a raw value of at most
+    53 bits (in particular every reachable state of a signal of the supported class): with a declared range
+    the result is finite and inside [min, max]; without one it is fl(fl(raw*scale)+offset) *)
+Lemma phys_get_clamped m st i s :
+  nth_error (msg_signals m) i = Some s ->
+  c09_class_f (sc s) (off s) (smin s) (smax s) = true -> Z.abs (nth i st 0) < 2 ^ 53 ->
+  exists r, phys_get m st i = Some r /\
+    (declared_f (smin s) (smax s) = true -> is_finite r = true /\ Bleb (smin s) r = true /\ Bleb r (smax s) = true) /\
+    (declared_f (smin s) (smax s) = false ->
+       r = Bplus mode_NE (Bmult mode_NE (f64_of_Z (nth i st 0)) (sc s)) (off s)).
+Proof.
+  intros E Hc Hb. unfold phys_get. rewrite E. eexists. split; [reflexivity|].
+  destruct (f64_of_Z_exact (nth i st 0) Hb) as [Hfin _].
+  pose proof (to_physical_clamp_b (sc s) (off s) (smin s) (smax s) (f64_of_Z (nth i st 0)) Hc Hfin) as H.
+  cbv zeta in H. destruct H as (_ & Hd & Hn).
+  unfold getter_physical, to_physical. split.
+  - intros D. destruct (Hd D) as (F & A & B & _). auto.
+  - intros D. exact (Hn D).
 Qed.
 
 Lemma phys_set_inv m st i x :
